@@ -48,8 +48,10 @@ func c30Oracle(name, text string, r *ev.Rec) (inDomain bool, ndecl int, err erro
 		// still a violation.
 		sig := ""
 		switch {
-		case c30LineCommentInBrackets(text):
-			sig = "line-comment-inside-brackets" // classified on the input: may even swallow the closing bracket
+		case c30LineCommentInBrackets(text) && c30Significant(got) == c30Significant(text):
+			// classified on the input; comments may be displaced or lost, but since the printer puts a missing
+			// line end back after a // comment no token may be swallowed any more: the token sequence must be intact
+			sig = "line-comment-inside-brackets"
 		case c30DropAllSpace(got) == c30DropAllSpace(text):
 			sig = "layout-not-verbatim"
 		case c30Significant(got) == c30Significant(text) && c30CommentBag(got) == c30CommentBag(text):
